@@ -4,7 +4,7 @@ from . import _core_common as cc
 PROP = 'C01'
 ENGINE = 'coresim'
 HASH_CLASSES = 1
-RUNS = {'quick': 500, 'thorough': 20000}
+RUNS = {'quick': 1000, 'thorough': 30000}
 RUN_TIMEOUT = 240
 DETERMINISM_RUNS = 8
 RULE = ("Each run = one generated spacetime (HOM / ON exact solutions via "
